@@ -14,6 +14,7 @@ from __future__ import print_function
 
 import os
 import sys
+import errno
 import glob
 import copy
 import argparse
@@ -242,10 +243,11 @@ def run():
             if not args.no_css and p:
                 out = f.format(p)
                 if args.output:
-                    if not args.dont_create_dirs and not os.path.exists(
-                            os.path.dirname(args.output)):
+                    outdir = os.path.dirname(args.output)
+                    if not args.dont_create_dirs and outdir and not os.path.exists(
+                            outdir):
                         try:
-                            os.makedirs(os.path.dirname(args.output))
+                            os.makedirs(outdir)
                         except OSError as exc:  # Guard against race condition
                             if exc.errno != errno.EEXIST:
                                 raise
